@@ -44,6 +44,15 @@ def design_runs(chk, thorough):
     if not w["violated"]:
         raise vlib.Machinery("vacuity control: the as-written variant should violate an invariant (%s)" % w["error"])
     got["asWritten"] = w["violated"]
+    rx = vlib.tlc_must_pass("Extrapolate", "Extrapolate.cfg", timeout=1200)
+    chk.add_tlc(rx, "Extrapolate: default grid extension below / above the data (repeated end points, single point)")
+    if rx["violated"]:
+        chk.design_violation(rx, "Extrapolate", {"class": "design-extrapolate"})
+    wx = vlib.tlc("Extrapolate", "Extrapolate_singleOnly.cfg", timeout=600)
+    if wx["violated"] != "Constructs":
+        raise vlib.Machinery("vacuity control: Extrapolate_singleOnly (fixed count for a single point only) should violate "
+                             "Constructs, got %s / %s" % (wx["violated"], wx["error"]))
+    got["extrapolate_singleOnly"] = "Constructs"
     chk.notes["vacuity_controls"] = got
 
 
